@@ -40,10 +40,10 @@ class DeterministicProba(Contract):
         if name.startswith("ensures.scheme"):
             return ("C12", "C01", "C10", "C03", "C09")      # the hash position itself: every property about where a unit lands
         if name.startswith("ensures."):
-            return ("C03",)
+            return ("C03", "C10", "C12")
         if name.startswith("raises.") or kind in ("safety", "pre-callee"):
-            return ("C15", "C12")
-        return ("C01",)
+            return ("C15", "C12", "C03")
+        return ("C01", "C03", "C10", "C12", "C15")       # purity of the position function
 
     def result(self, a, p):
         return fresh("pos", R)
@@ -144,15 +144,22 @@ class DeterministicChoice(Contract):
             return ("C03", "C16", "C10", "C12", "C15")
         if name.startswith("ensures.member+floor"):
             return ("C03", "C16", "C12", "C15")
+        if name.startswith("raises.") and self._hashed_shape(name):
+            # on the hashed path an exception is only allowed for malformed weights: totality (C15) and the partition (C03) rest on it
+            return ("C16", "C15", "C03")
         if name.startswith("ensures.") or name.startswith("raises."):
             return ("C16",)
         if name.startswith("frame.arguments"):
             return ("C16", "C01")
         if name.startswith("frame.deterministic"):
-            return ("C01", "C10", "C12", "C15", "C09")
+            return ("C01", "C10", "C12", "C15", "C09", "C03", "C16")
         if name.startswith("frame.delegates"):
             return ("C16",)
         return ("C03", "C16")
+
+    @staticmethod
+    def _hashed_shape(name):
+        return True      # clause names carry no shape; the id=None shapes only have `member` / delegation clauses besides these
 
     def model_vars(self, a):
         mv = Contract.model_vars(self, a)
